@@ -31,6 +31,7 @@ import numpy as np
 
 # Midgard imports
 from midgard.data import dataset
+from midgard.data.time import Time, TimeDelta
 from midgard.dev import log, plugins
 from midgard.math.constant import constant
 from midgard.math.unit import Unit
@@ -417,18 +418,22 @@ class Sp3dParser(ChainParser):
         from datetime import datetime, timedelta
 
         date = []
-        millisec = []
+        fraction = []
         for v in self.data["time"]:
             val, val2 = v.split(".")
             date.append(datetime.strptime(val, "%Y-%m-%dT%H:%M:%S"))
-            millisec.append(timedelta(milliseconds=int(val2)))
+            fraction.append(int(val2) / 10 ** len(val2))  # Fraction of a second (7 digits in the time string)
 
         if dset.meta["time_sys"] == "GPS":
-            dset.add_time("time", val=date, val2=millisec, scale="gps", fmt="datetime")
+            scale = "gps"
         elif dset.meta["time_sys"] == "UTC":
-            dset.add_time("time", val=date, val2=millisec, scale="utc", fmt="datetime")
+            scale = "utc"
         else:
             log.fatal(f"Time system {dset.meta['time_sys']} is not handled so far in Where.")
+
+        # A datetime only resolves microseconds: the fraction of the second is added as a time difference
+        time = Time(val=date, scale=scale, fmt="datetime") + TimeDelta(np.array(fraction), scale=scale, fmt="seconds")
+        dset.add_time("time", time)
 
         dset.add_text("satellite", val=self.data["satellite"])
         dset.add_text("system", val=self.data["system"])
